@@ -13,6 +13,8 @@ R7.10 a rendered method is never served from a cache keyed by the operation alon
 R7.11 sanitize_method_name returns a valid ASCII identifier for every input (string-shape interpretation)              [= R20.1]
 R7.12 no key of the Paths Object other than an `x-` extension is taken out before parse_operations sees it (filter evaluated per key)
 R7.13 the list of rendered methods reaches the class writer whole: never re-bound / shortened, written element by element without a skip
+R7.15 a Path Item given as `$ref` is resolved or rejected - never skipped like a documentation field - and a key that is no known method but holds a
+      mapping (`query`, `additionalOperations`) raises instead of being passed over
 R7.14 no tag attribute of APIClient can take the name of one of the class's own members (`transport`, `request`, `close`, `_base_url`): the
       fixed member names of the class template are refused by the function that derives the attribute name
 R7.7  the tag grouping key is at least as coarse as the module / class names derived from a tag (no two groups share a file)
@@ -59,6 +61,54 @@ class _R711:
 
     def count(self, *a, **k):
         pass
+
+
+def rule_path_item_refs_and_unknown_keys(repo: Repo, rep, rule: str = "R7.15") -> None:
+    """"If an operation cannot be represented, generation fails visibly instead of omitting it."  Two places of `parse_operations` pass over keys of a
+    Path Item without looking: the set of fields that are skipped by name, and the branch for keys that are no member of HTTPMethod.  (a) `$ref` is
+    not a documentation field: a referenced Path Item (`#/components/pathItems/X`, or a file reference of an un-bundled document) carries
+    operations; it may be in the skip set only if the function deals with `"$ref" in <item>` first (resolve or raise).  (b) the unknown-key branch
+    raises for a key that holds a mapping and is not an `x-` extension (OpenAPI 3.2 `query`, `additionalOperations`, a misspelt method)."""
+    po = repo.func("core.loader.operations.parser:parse_operations")
+    skipsets = []
+    for n in own_nodes(po.node):
+        if isinstance(n, ast.If) and isinstance(n.test, ast.Compare) and len(n.test.ops) == 1 and isinstance(n.test.ops[0], ast.In) and isinstance(n.test.comparators[0], (ast.Set, ast.Tuple, ast.List)) \
+                and any(isinstance(b, ast.Continue) for b in n.body):
+            vals = {const_str(e) for e in n.test.comparators[0].elts if const_str(e) is not None}
+            if vals & {"parameters", "summary", "description", "servers"}:
+                skipsets.append((n, vals))
+    if not skipsets:
+        raise AnalysisError(f"{rule}: the by-name skip of Path Item fields (`if <key> in {{parameters, summary, ...}}: continue`) was not found (anchor)")
+    n0, vals = skipsets[0]
+    handled = any(isinstance(x, ast.Compare) and len(x.ops) == 1 and isinstance(x.ops[0], ast.In) and const_str(x.left) == "$ref" and getattr(x, "lineno", 0) < n0.lineno
+                  for x in ast.walk(po.node))
+    sub = f"{po.module.relpath}:parse_operations Path Item given as `$ref`"
+    if "$ref" in vals and not handled:
+        rep.violation(rule, sub, f"{po.fq}|path-item-ref-skipped",
+                      "`$ref` is skipped like `summary` / `description`: the operations of a referenced Path Item (`#/components/pathItems/...`, or a file reference of a document that "
+                      "was not bundled) are missing from the client and generation reports nothing", po.loc(n0))
+    else:
+        rep.ok(rule, sub, "a `$ref` Path Item is dealt with before the key loop (resolved or rejected)" if handled else "`$ref` is not among the keys skipped by name", po.loc(n0))
+    extra = vals - {"parameters", "summary", "description", "servers", "$ref"}
+    sub2 = f"{po.module.relpath}:parse_operations keys skipped by name"
+    if extra:
+        rep.violation(rule, sub2, f"{po.fq}|skip-set|{sorted(extra)}", f"{sorted(extra)} are passed over by name although they are no documentation fields of a Path Item", po.loc(n0))
+    else:
+        rep.ok(rule, sub2, f"only {sorted(vals - {'$ref'})}", po.loc(n0))
+    # (b) the not-a-known-method branch
+    sub3 = f"{po.module.relpath}:parse_operations key that is no HTTP method"
+    branch = None
+    for n in own_nodes(po.node):
+        if isinstance(n, ast.If) and isinstance(n.test, ast.Compare) and len(n.test.ops) == 1 and isinstance(n.test.ops[0], ast.NotIn) and "__members__" in norm(n.test.comparators[0]):
+            branch = n
+    if branch is None:
+        rep.ok(rule, sub3, "no pass-over branch for unknown keys", po.loc())
+    elif any(isinstance(x, ast.Raise) for b in branch.body for x in ast.walk(b)):
+        rep.ok(rule, sub3, "an unknown key that holds a mapping raises (an `x-` extension or a scalar is passed over)", po.loc(branch))
+    else:
+        rep.violation(rule, sub3, f"{po.fq}|unknown-key-passed-over",
+                      "every key that is not a member of HTTPMethod is passed over silently - also one that holds an operation (`query` of OpenAPI 3.2, `additionalOperations`, a misspelt "
+                      "method): its operation is missing from the client and nothing is reported", po.loc(branch))
 
 
 def rule_tag_attrs_spare_client_members(repo: Repo, rep, rule: str = "R7.14") -> None:
@@ -143,6 +193,7 @@ def rule_tag_attrs_spare_client_members(repo: Repo, rep, rule: str = "R7.14") ->
 def run(repo: Repo, rep: Report, tier: str) -> None:
     po = repo.func("core.loader.operations.parser:parse_operations")
     rule_tag_attrs_spare_client_members(repo, rep, "R7.14")
+    rule_path_item_refs_and_unknown_keys(repo, rep, "R7.15")
     # ---------------------------------------------------------------- R7.10 / R7.11
     from rules._memo import persistent_memo_rule
 
